@@ -373,7 +373,6 @@ def _cleave(ctx, f):
         # semi
         ctx.require(len(semi_loops) == 1, f"{f.qual}: semi loop not found")
         sl = semi_loops[0]
-        want_it = ("call", "builtins.range", (("const", 1), LEN_PEP), ())
         semi_adds = [(n, v) for n, v in added if inside(n, sl)]
         loop_conds = conds(sl)
         bad = []
@@ -382,53 +381,118 @@ def _cleave(ctx, f):
                  "M": False, "cut": 1}
             if reached(loop_conds, v) != flag:
                 bad.append(flag)
-        ctx.check(T.of(sl.iter) == want_it and not bad, "C17b-semi-cuts", f,
+        # The semi scan is judged by what it adds, not by how it counts:
+        # for a peptide of L residues (as index range 0..L) the loop is
+        # followed value by value of its own iterable - tests decided under
+        # that value, a break honoured - and every added slice is reduced
+        # to the index range it denotes.  Any loop variable (cut position,
+        # fragment length, counting up or down) gives the same sets.
+        from ..chunks import Unknown as _CU, ev as _cev
+        for n_, v_ in semi_adds:
+            conds(n_, v_)       # records history-dependent guards
+        hdr = cfg.node_of(sl).id
+        first = cfg.node_of(sl.body[0]).id
+        brk = {cfg.node_of(x).id for x in ast.walk(sl)
+               if isinstance(x, (ast.Break, ast.Return))}
+        add_nodes = [(cfg.node_of(cfg.stmt_of(n_)).id, v_)
+                     for n_, v_ in semi_adds]
+        it_term = T.of(sl.iter)
+
+        def run_semi(L, mn, mx, honour_break):
+            def base_atoms(t):
+                if t == LEN_PEP:
+                    return L
+                if t[0] == "param" and t[1] in (p_min, p_max, p_semi,
+                                                p_clip):
+                    return {p_min: mn, p_max: mx, p_semi: True,
+                            p_clip: False}[t[1]]
+                raise KeyError(t)
+            seq = list(_cev(it_term, base_atoms))
+            got, pairs = set(), []
+            for x in seq:
+                def at(t, x=x):
+                    if t == CUT:
+                        return x
+                    return base_atoms(t)
+
+                def decide(test):
+                    tt = simp(T.of(test))
+                    if reads_result(tt):
+                        return None
+                    return bool(_cev(tt, at))
+                vis = cfg.visited_under(first, decide, stop={hdr} | brk)
+                here = set()
+                for nid, v_ in add_nodes:
+                    if nid not in vis:
+                        continue
+                    if not (v_[0] == "sub" and v_[1] == PEP
+                            and v_[2][0] == "slice"):
+                        raise _CU("added value is not a slice of the "
+                                  "peptide")
+                    sl_ = _cev(v_[2], at)
+                    r = range(L)[sl_]
+                    if sl_.step not in (None, 1):
+                        raise _CU("stepped slice")
+                    here.add((r.start, r.stop) if len(r) else (0, 0))
+                got |= here
+                pairs.append((x, here))
+                if honour_break and (brk & vis):
+                    break
+            return got, pairs
+
+        def want(L, mn, mx):
+            out = set()
+            for k in range(1, L):
+                if mn <= k <= mx:
+                    out |= {(L - k, L), (0, k)}
+            return out
+
+        bad_cuts, bad_pair, bad_len, bad_brk = [], [], [], []
+        for L in (2, 6, 7, 9, 12):
+            g, pairs = run_semi(L, 1, 1000, False)
+            if g != want(L, 1, 1000):
+                bad_cuts.append((L, sorted(want(L, 1, 1000) - g)[:3],
+                                 sorted(g - want(L, 1, 1000))[:3]))
+            for x, here in pairs:
+                ks = {(e - s_) for s_, e in here}
+                if len(here) != 2 or len(ks) != 1 or not any(
+                        s_ == 0 for s_, _e in here) or not any(
+                        e == L for _s, e in here):
+                    bad_pair.append((L, x, sorted(here)))
+            for mn, mx in ((5, 9), (3, 4), (1, 2), (6, 6)):
+                g_nb, _p = run_semi(L, mn, mx, False)
+                g_b, _p = run_semi(L, mn, mx, True)
+                if g_nb != want(L, mn, mx):
+                    bad_len.append((L, mn, mx,
+                                    sorted(want(L, mn, mx) ^ g_nb)[:3]))
+                if g_b != g_nb:
+                    bad_brk.append((L, mn, mx, sorted(g_nb - g_b)[:3]))
+        ctx.check(not bad_cuts and not bad, "C17b-semi-cuts", f,
                   "with semi on, every cut position 1 .. len-1 is "
                   "considered",
                   f"semi loop {ast.unparse(sl.iter)} under "
-                  f"{cfg.conditions(sl)}", node=sl)
-
-        def cut_slice(lo, hi):
-            return ("sub", PEP, ("slice", lo, hi, ("const", None)))
-
-        want_vals = {cut_slice(CUT, ("const", None)),
-                     cut_slice(("const", None), ("un", "-", CUT))}
-        ctx.check({v for _n, v in semi_adds} == want_vals and len(
-            semi_adds) == 2, "C17b-semi-prefix-suffix", f,
-            "each cut adds the suffix and the prefix of the same length",
-            f"semi adds {[show(v, 80) for _n, v in semi_adds]}", node=sl)
-        bad = []
-        for n, _v in semi_adds:
-            cs = conds(n, _v)
-            for L, c in itertools.product((7, 9), range(1, 9)):
-                if c >= L:
-                    continue
-                v = {"L": L, "end": 5, "sidx": 1, "clip": False,
-                     "semi": True, "M": False, "cut": c}
-                got = reached(cs, v)
-                if got != (5 <= L - c <= 9):
-                    bad.append((L, c, got))
-        ctx.check(not bad, "C17b-semi-length", f,
+                  f"{cfg.conditions(sl)}: (peptide length, fragments "
+                  f"missing, fragments in excess) = {bad_cuts[:2]}",
+                  node=sl)
+        ctx.check(not bad_pair and len(semi_adds) >= 1,
+                  "C17b-semi-prefix-suffix", f,
+                  "each cut adds the suffix and the prefix of the same length",
+                  "(peptide length, loop value, index ranges added) = "
+                  f"{bad_pair[:3]}", node=sl)
+        ctx.check(not bad_len, "C17b-semi-length", f,
                   "a fragment of an admissible peptide is added iff min <= "
-                  "len(peptide) - cut <= max",
-                  f"deviates for (len, cut, added) = {bad[:4]} with min=5, "
-                  "max=9", node=sl)
-        bad = []
-        for n in ast.walk(sl):
-            if isinstance(n, (ast.Break, ast.Return)):
-                cs = conds(n)
-                for L, c in itertools.product((7, 9), range(1, 9)):
-                    if c >= L:
-                        continue
-                    v = {"L": L, "end": 5, "sidx": 1, "clip": False,
-                         "semi": True, "M": False, "cut": c}
-                    if reached(cs, v) and not (L - c < 5):
-                        bad.append((L, c))
-        ctx.check(not bad, "C17b-semi-length-bounds", f,
-                  "the scan over the cuts only stops when the fragments "
-                  "have become shorter than min (lengths only shrink)",
-                  "the scan stops although shorter, still admissible "
-                  f"fragments follow: (len, cut) = {bad[:4]}", node=sl)
+                  "fragment length <= max",
+                  "deviates for (len, min, max, index ranges) = "
+                  f"{bad_len[:3]}", node=sl)
+        ctx.check(not bad_brk, "C17b-semi-length-bounds", f,
+                  "the scan over the cuts only stops when no admissible "
+                  "fragment can follow",
+                  "the scan stops although admissible fragments follow: "
+                  f"(len, min, max, lost index ranges) = {bad_brk[:3]}",
+                  node=sl)
+    except _CU_BASE as e:
+        raise AnalysisError(f"{f.qual}: the semi-enzymatic scan is outside "
+                            f"the evaluated fragment: {str(e)[:120]}")
     except (EvUnknown, KeyError) as e:
         raise AnalysisError(f"{f.qual}: a guard uses a quantity outside "
                             f"the evaluated fragment: {e}")
@@ -451,6 +515,9 @@ def _cleave(ctx, f):
                    "no guard of the digestion reads the result collected so "
                    "far (other than 'not yet in the result' for the value "
                    "being added)")
+
+
+from ..chunks import Unknown as _CU_BASE  # noqa: E402
 
 
 def _through(v, pep):
